@@ -5,6 +5,7 @@
   `BA.Sector.Spec`, and the model `BA.Sector.Alloc` of `State::allocate_sector_numbers`.
 -/
 import BA.Lemmas.Sector.Refine
+import BA.Lemmas.Sector.Pop
 import BA.Model.Sector.Alloc
 
 namespace BA.Sector
@@ -124,6 +125,19 @@ theorem queue_returns_power_of_sectors (qs : QuantSpec) (q : Queue) (infos : Lis
     (∀ fe q' nf, rescheduleAsFaults qs q fe infos = .ok (q', nf) → nf = sumPow infos) ∧
     (∀ q' pw, rescheduleRecovered qs q infos = .ok (q', pw) → pw = sumPow infos) :=
   ⟨fun _ _ _ h => (rescheduleAsFaults_spec hq hn h).2, fun _ _ h => (rescheduleRecovered_spec hq hn h).2⟩
+
+/-- **pop_expired_memo_given_queue_memos.** `pop_expired_sectors` keeps the partition memos exact
+    (live and faulty power lose exactly the power of the expired sectors, recomputed from the table)
+    PROVIDED the per-epoch memos of the expiration queue are exact before the call (`QSum`: per
+    entry active = Σ power(on-time ∖ faults), faulty = Σ power((on-time ∩ faults) ∪ early), early ⊆
+    faults, no sector scheduled twice) and the queue only schedules sectors of the partition.
+    That `QSum` is preserved by the queue algorithms is NOT proved yet; it is the invariant the
+    recomputation oracle checks on the real code after every call. -/
+theorem pop_expired_memo_given_queue_memos (tbl : Table) (p p' : Partition) (u : Int) (es : ExpSet)
+    (hs : SetInv p) (hm : MemoInv tbl p) (hq : QSum tbl p.faults p.expirations)
+    (hsub : ∀ e es, (e, es) ∈ p.expirations → ∀ x ∈ es.all, x ∈ p.sectors)
+    (h : p.popExpiredSectors u = .ok (p', es)) : MemoInv tbl p' :=
+  memo_popExpired hs hm hq hsub h
 
 /-! ### `Partition::validate_state` never turns a valid operation into an error -/
 
